@@ -323,9 +323,6 @@ func findWrapped(format string, args []value) iface {
 // ---- heap walk for vrt.Reachable
 
 func (i *interpreter) reachable(root, target value) bool {
-	seenP := map[*value]bool{}
-	seenM := map[*hashmap]bool{}
-	seenS := map[*value]bool{}
 	var tp *value
 	if it, ok := target.(iface); ok {
 		if p, ok := it.v.(*value); ok {
@@ -333,12 +330,25 @@ func (i *interpreter) reachable(root, target value) bool {
 		}
 	}
 	if tp == nil {
-		panic(vmUnsupported("vrt.Reachable: target must be a pointer"))
+		panic(vmUnsupported("vrt.Reachable/Released: target must be a pointer"))
 	}
+	_, found := i.walkHeap(root, tp)
+	return found
+}
+
+// walkHeap visits everything reachable from root (through unexported fields,
+// maps, slices, closures, contexts, sync.Map contents); it returns the number
+// of distinct heap cells seen and whether the cell tp was among them.
+func (i *interpreter) walkHeap(root value, tp *value) (int, bool) {
+	seenP := map[*value]bool{}
+	seenM := map[*hashmap]bool{}
+	seenS := map[*value]bool{}
+	seenC := map[*vmCtx]bool{}
 	found := false
+	cells := 0
 	var walk func(v value, depth int)
 	walk = func(v value, depth int) {
-		if found || depth > 10000 {
+		if depth > 100000 {
 			return
 		}
 		switch x := v.(type) {
@@ -348,13 +358,12 @@ func (i *interpreter) reachable(root, target value) bool {
 			}
 			if x == tp {
 				found = true
-				return
 			}
 			if seenP[x] {
 				return
 			}
 			seenP[x] = true
-			// sync.Map contents / mutex state keyed by the address of a field
+			cells++
 			if m := i.syncMaps[x]; m != nil {
 				walk(m, depth+1)
 			}
@@ -363,6 +372,9 @@ func (i *interpreter) reachable(root, target value) bool {
 			walk(x.v, depth+1)
 		case structure:
 			for k := range x {
+				if &x[k] == tp {
+					found = true
+				}
 				if m := i.syncMaps[&x[k]]; m != nil {
 					walk(m, depth+1)
 				}
@@ -370,16 +382,22 @@ func (i *interpreter) reachable(root, target value) bool {
 			}
 		case array:
 			for k := range x {
+				if &x[k] == tp {
+					found = true
+				}
 				walk(x[k], depth+1)
 			}
 		case []value:
-			if len(x) > 0 {
-				if seenS[&x[0]] {
+			full := x[:cap(x)]
+			if len(full) > 0 {
+				if seenS[&full[0]] {
 					return
 				}
-				seenS[&x[0]] = true
+				seenS[&full[0]] = true
+				cells++
 			}
-			full := x[:cap(x)]
+			// only the elements up to len are live for the program, but the
+			// backing array beyond len still pins what it holds: walk it all
 			for k := range full {
 				walk(full[k], depth+1)
 			}
@@ -388,6 +406,7 @@ func (i *interpreter) reachable(root, target value) bool {
 				return
 			}
 			seenM[x] = true
+			cells++
 			for _, e := range x.live() {
 				walk(e.key, depth+1)
 				walk(e.value, depth+1)
@@ -396,12 +415,22 @@ func (i *interpreter) reachable(root, target value) bool {
 			for _, e := range x.Env {
 				walk(e, depth+1)
 			}
-		case *vmCtx:
-			for c := x; c != nil; c = c.parent {
-				walk(c.key, depth+1)
-				walk(c.val, depth+1)
+		case *nativeFn:
+			if x.ctx != nil {
+				walk(x.ctx, depth+1)
 			}
-			// a cancellable parent keeps its children reachable until they are cancelled
+		case *vmCtx:
+			if x == nil || seenC[x] {
+				return
+			}
+			seenC[x] = true
+			cells++
+			walk(x.key, depth+1)
+			walk(x.val, depth+1)
+			if x.parent != nil {
+				walk(x.parent, depth+1)
+			}
+			// a cancellable context keeps its live children reachable
 			for _, ch := range x.children {
 				if !ch.cancelled {
 					walk(ch, depth+1)
@@ -416,7 +445,7 @@ func (i *interpreter) reachable(root, target value) bool {
 		}
 	}
 	walk(root, 0)
-	return found
+	return cells, found
 }
 
 // contexts keep derived children in `children` even after the child is
@@ -514,6 +543,17 @@ func init() {
 		},
 		vrtPath + ".Goroutines": func(fr *frame, a []value) value { return fr.i.sched.live() },
 		vrtPath + ".Reachable": func(fr *frame, a []value) value { return fr.i.reachable(a[0], a[1]) },
+		vrtPath + ".Track": func(fr *frame, a []value) value {
+			fr.i.tracked = append(fr.i.tracked, a[0])
+			return len(fr.i.tracked) - 1
+		},
+		vrtPath + ".Released": func(fr *frame, a []value) value {
+			return !fr.i.reachable(a[0], fr.i.tracked[a[1].(int)])
+		},
+		vrtPath + ".HeapSize": func(fr *frame, a []value) value {
+			n, _ := fr.i.walkHeap(a[0], nil)
+			return n
+		},
 		vrtPath + ".Trace": func(fr *frame, a []value) value {
 			fr.i.run.obs = append(fr.i.run.obs, fr.i.sprintf(fr, a[0].(string), a[1].([]value)))
 			return nil
@@ -833,7 +873,7 @@ func newCancelCtx(p *vmCtx) *vmCtx {
 }
 
 func cancelFunc(c *vmCtx) value {
-	return &nativeFn{name: "context.cancel", code: uintptr(unsafe.Pointer(c)), f: func(fr *frame, args []value) value {
+	return &nativeFn{name: "context.cancel", code: uintptr(unsafe.Pointer(c)), ctx: c, f: func(fr *frame, args []value) value {
 		c.cancel("canceled")
 		if p := c.parent.canceller(); p != nil {
 			p.pruneChildren()
